@@ -86,6 +86,13 @@ class DispatchStation(VehicleState):
                 SimulationStateError(f"station not found; context: {context}"),
                 None,
             )
+        elif (
+            isinstance(vehicle.vehicle_state, ChargeQueueing)
+            and vehicle.vehicle_state.station_id == self.station_id
+            and vehicle.vehicle_state.charger_id == self.charger_id
+        ):
+            # already waiting in this very queue: the plug is granted by the queue, in order of arrival
+            return None, None
         elif station.geoid == vehicle.geoid:
             # already there!
             next_state = ChargingStation.build(self.vehicle_id, self.station_id, self.charger_id)
